@@ -108,7 +108,9 @@ Moves(stk) ==
            \cup { Mv(Tok("other", "name"), Repl(stk, "DS1"), FALSE), Mv(Tok("begin", "begin"), Repl(stk, "B0"), FALSE) }
       [] f = "B0" -> BodyStarts(stk) \cup { Mv(Tok("end", "end"), Repl(stk, "CE"), FALSE) }
       [] f = "B"  -> BodyStarts(stk) \cup { Mv(Tok("end", "end"), Repl(stk, "ES"), FALSE) }
-      [] f = "S0" -> { Mv(Tok("other", "assign"), Repl(stk, "S"), FALSE), Mv(Tok("ws", "ws"), stk, FALSE),
+      [] f = "SA" -> { Mv(Tok("other", "name"), Repl(stk, "S"), FALSE), Mv(Tok("other", "num"), Repl(stk, "S"), FALSE),
+                       Mv(Tok("other", "str"), Repl(stk, "S"), FALSE), Mv(Tok("ws", "ws"), stk, FALSE) }   \* an assignment has a right-hand side
+      [] f = "S0" -> { Mv(Tok("other", "assign"), Repl(stk, "SA"), FALSE), Mv(Tok("ws", "ws"), stk, FALSE),
                        Mv(Tok("other", "name"), Repl(stk, "S"), FALSE), Mv(Tok("kw", "kw"), Repl(stk, "S"), FALSE),
                        Mv(Tok("semi", "semi"), Pop(stk), FALSE) }
       [] f = "S"  -> Expr(stk) \cup { Mv(Tok("semi", "semi"), Pop(stk), FALSE) }
@@ -136,7 +138,7 @@ Closing(stk) ==
     LET f == Top(stk)
         want == CASE f = "P" -> {"semi"} [] f = "R" -> {"rp"} [] f = "CX" -> {"end"}
                   [] f = "CH" -> {"begin"} [] f = "DS" -> {"name"} [] f = "DS1" -> {"semi"} [] f = "DS2" -> {"begin"} [] f = "B0" -> {"end"}
-                  [] f = "B" -> {"end"} [] f = "S" -> {"semi"} [] f = "S0" -> {"semi"} [] f = "IC" -> {"then"}
+                  [] f = "B" -> {"end"} [] f = "S" -> {"semi"} [] f = "S0" -> {"semi"} [] f = "SA" -> {"name"} [] f = "IC" -> {"then"}
                   [] f = "IB" -> {"endif"} [] f = "FH" -> {"loop"} [] f = "WH" -> {"loop", "do"}
                   [] f = "LB" -> {"endloop"} [] f = "WB" -> {"endwhile"} [] f = "CS" -> {"end"}
                   [] f = "CS2" -> {"case"} [] f = "ES" -> {"semi"} [] f = "CE" -> {"semi"}
